@@ -231,3 +231,46 @@ Definition step (s : st) (w : wire) : st * list wire :=
 Fixpoint run (s : st) (ws : list wire) : list wire :=
   match ws with [] => [] | w :: r => let '(s', o) := step s w in o ++ run s' r end.
 Definition main_wire (ws : list wire) : list wire := run init ws.
+
+(* ---------- specification vocabulary (used by the theorems; not extracted) ---------- *)
+Definition in_range (o n i : Z) : bool := (o <=? i) && (i <? o + n).
+(* the secrets with a fixed place: AuthKey, LocationPwd/Password, WIFI_PWD *)
+Definition secret_static (i : Z) : bool :=
+  in_range OFF_AUTHKEY SZ_AUTHKEY i || in_range OFF_PWD SZ_PWD i || in_range OFF_WIFIPWD SZ_WIFIPWD i.
+Definition in_email (i : Z) : bool := in_range OFF_EMAIL SZ_EMAIL i.
+(* a text field holds a terminator inside its own bytes *)
+Definition terminated (c : list Z) (off sz : Z) : Prop := exists k, 0 <= k < sz /\ nthz c (off + k) = 0.
+Record wf_cfg (c : list Z) : Prop := {
+  wf_ssid : terminated c OFF_SSID SZ_SSID;
+  wf_server : terminated c OFF_SERVER SZ_SERVER;
+  wf_email : terminated c OFF_EMAIL SZ_EMAIL;
+  wf_prefix : terminated c OFF_PREFIX SZ_PREFIX }.
+(* c1 and c2 agree on everything that is not a secret: outside AuthKey / Password / WIFI_PWD / Email
+   byte for byte, and inside Email/Username up to and including its first terminator (what follows
+   the terminator is the overflow part of a long password) *)
+Definition low_equiv (c1 c2 : list Z) : Prop :=
+  (forall i, 0 <= i < CFG_SIZE -> secret_static i = false -> in_email i = false -> nthz c1 i = nthz c2 i) /\
+  (forall i, 0 <= i < SZ_EMAIL -> (forall j, 0 <= j < i -> nthz c1 (OFF_EMAIL + j) <> 0) ->
+             nthz c1 (OFF_EMAIL + i) = nthz c2 (OFF_EMAIL + i)).
+Definition nonul (l : list Z) : Prop := ~ In 0 l.
+Definition mkenv (c nm mc stt : list Z) (d : Z) : env := {| cfg := c; name := nm; mac := mc; state := stt; ds := d |}.
+(* the complete text of the page before it is put into the buffer *)
+Definition full_page (sg : bool) (v : Z) (e : env) (add : list Z) : list Z :=
+  if v =? 6 then mqtt_full sg e add else supla_full sg v e.
+
+(* executable versions, for the examples *)
+Definition idxs (n : Z) : list Z := map Z.of_nat (seq 0 (Z.to_nat n)).
+Definition terminatedb (c : list Z) (off sz : Z) : bool := existsb (fun k => nthz c (off + k) =? 0) (idxs sz).
+Definition wf_cfgb (c : list Z) : bool :=
+  terminatedb c OFF_SSID SZ_SSID && terminatedb c OFF_SERVER SZ_SERVER &&
+  terminatedb c OFF_EMAIL SZ_EMAIL && terminatedb c OFF_PREFIX SZ_PREFIX.
+Definition low_equivb (c1 c2 : list Z) : bool :=
+  forallb (fun i => secret_static i || in_email i || (nthz c1 i =? nthz c2 i)) (idxs CFG_SIZE) &&
+  forallb (fun i => existsb (fun j => nthz c1 (OFF_EMAIL + j) =? 0) (idxs i) ||
+                    (nthz c1 (OFF_EMAIL + i) =? nthz c2 (OFF_EMAIL + i))) (idxs SZ_EMAIL).
+Fixpoint prefixb (p l : list Z) : bool :=
+  match p, l with [], _ => true | x :: p', y :: l' => (x =? y) && prefixb p' l' | _, [] => false end.
+Fixpoint infixb (p l : list Z) : bool :=
+  prefixb p l || match l with [] => false | _ :: l' => infixb p l' end.
+(* replace the bytes at [off, off+len s) *)
+Definition poke (c : list Z) (off : Z) (s : list Z) : list Z := take off c ++ s ++ drop (off + len s) c.
